@@ -262,7 +262,8 @@ Fixpoint incr (n : string) (cs : counts) : counts :=
   | (n', k) :: r => if String.eqb n n' then (n', S k) :: r else (n', k) :: incr n r
   end.
 
-Fixpoint count_refs (u : univ) (fuel : nat) : ty -> counts -> counts :=
+(* unnamed: classes decorated with type_name(None): never referenced, always expanded *)
+Fixpoint count_refs (u : univ) (unnamed : nat -> bool) (fuel : nat) : ty -> counts -> counts :=
   fix go (t : ty) (cs : counts) {struct t} : counts :=
     match t with
     | TColl _ t' | TCon _ t' => go t' cs
@@ -271,17 +272,17 @@ Fixpoint count_refs (u : univ) (fuel : nat) : ty -> counts -> counts :=
     | TMap kt vt => go vt (go kt cs)
     | TEnum e => incr (ename_ e) cs
     | TObj c =>
-        let seen := Nat.ltb 0 (count_of (cname c) cs) in
-        let cs' := incr (cname c) cs in
+        let seen := negb (unnamed c) && Nat.ltb 0 (count_of (cname c) cs) in
+        let cs' := if unnamed c then cs else incr (cname c) cs in
         if seen then cs'
         else match fuel with
              | O => cs'
-             | S f => fold_left (fun acc fd => count_refs u f (fd_ty fd) acc) (cd_fields (get_cls u c)) cs'
+             | S f => fold_left (fun acc fd => count_refs u unnamed f (fd_ty fd) acc) (cd_fields (get_cls u c)) cs'
              end
     | _ => cs
     end.
 
-Definition refs_of (u : univ) (all_refs : bool) (t : ty) : list string :=
-  map fst (filter (fun c => all_refs || Nat.ltb 1 (snd c)) (count_refs u (S (List.length (u_classes u))) t [])).
+Definition refs_of (u : univ) (unnamed : nat -> bool) (all_refs : bool) (t : ty) : list string :=
+  map fst (filter (fun c => all_refs || Nat.ltb 1 (snd c)) (count_refs u unnamed (S (List.length (u_classes u))) t [])).
 
 Definition refs_pred (l : list string) : string -> bool := fun n => existsb (String.eqb n) l.
